@@ -24,6 +24,11 @@ def generate(rng, tier):
                 c = FL.gen_filter_case(rng, tier, R, Q)
                 if rep < 4:   # every variant sees every present/absent combination of the two input uncertainties, with non-zero values
                     FL.force_uncertainties(rng, c, dgr=bool(rep & 1) or rep == 0, dy=bool(rep & 2) or rep == 0)
+                if rep == 2 and len(c["r"]) > 3:   # points at negative r lie outside [0, cutoff] like those beyond the cutoff
+                    sh = c["r"][1] * 1.5
+                    c["r"] = [v - sh for v in c["r"]]
+                    c["cutoff"] = max(c["cutoff"] - sh, c["r"][-1] * 0.5)
+                    c["desc"]["negative_r"] = True
                 if rep == 1:  # a grid point exactly on the cutoff
                     c["cutoff"] = c["r"][max(1, len(c["r"]) // 2)]
                     c["desc"]["cutoff"] = "grid"
@@ -86,7 +91,7 @@ def oracle(pystog, case, res):
             return "data vanishing in g(r) below the cutoff change the reciprocal-space function"
     # removed component = sine transform (public method) of the real-space signal on the closed interval [0, cutoff] alone
     keep = [i for i, v in enumerate(case["r"]) if 0.0 <= v <= case["cutoff"]]
-    if keep:
+    if keep and all(v > 0 for v in case["r"]) or (keep and R == 0):
         tr0 = pystog.Transformer()
         cv0 = pystog.Converter()
         kw0 = L.kwargs_of(m)
@@ -115,6 +120,17 @@ def oracle(pystog, case, res):
     with np.errstate(all="ignore"):
         conv = L.deriv(1, 1, R, np.where(o["r"] > 0, o["r"], 1.0), m)
         bad = np.abs(np.asarray(g2, float) - o["g"]) > 1e-9 * (mag * conv + 1 + np.abs(o["g"]))
+        bad = bad & (o["r"] > 0)      # at r <= 0 the g(r) representation the filter works in holds only the conventional value
     if bad.any():
         return "returned real-space function is not the transform of the returned corrected function"
+    # ... and of an independent trapezoid sine quadrature of it (pure Python), for r > 0
+    for ri, gi in zip(o["r"], o["g"]):
+        if ri <= 0:
+            continue
+        val, mg = F.trapz_sine(list(xq), list(Fc), float(ri))
+        Gi = 2 / math.pi * val
+        want_g = L.from_base(1, R, ri, Gi / (4 * math.pi * m["rho"] * ri) + 1, m)
+        sc_ = L.deriv(1, 1, R, ri, m) * (2 / math.pi * mg) + 1 + abs(want_g)
+        if abs(gi - want_g) > 1e-9 * sc_:
+            return "returned real-space function at r=%r is %r, the sine transform of the returned corrected function is %r" % (float(ri), float(gi), float(want_g))
     return None
